@@ -864,6 +864,9 @@ package ggql
 //@   ensures[default-not-shared]{C03} is(v, map[string]interface{}) && t.meta == nil && err == nil ==> (forall k string {asMap(v)[k]} :: has(t.fields.dict, k) && old(asMap(v)[k]) == nil && isColl(inFld(t, k).Default) ==> asMap(v)[k] != inFld(t, k).Default)
 //@   ensures[non-null-present] is(v, map[string]interface{}) && t.meta == nil && err == nil ==> (forall k string {asMap(v)[k]} :: has(t.fields.dict, k) && is(inFld(t, k).Type, *NonNull) ==> asMap(v)[k] != nil)
 //@   ensures[coerced] is(v, map[string]interface{}) && t.meta == nil && err == nil ==> (forall k string {asMap(v)[k]} :: has(t.fields.dict, k) && old(asMap(v)[k]) != nil ==> conformsIn(asMap(v)[k], inFld(t, k).Type))
+//@   -- from the statement ("an argument value handed to a resolver conforms to the argument's declared type ... field defaults
+//@   -- filled in"): every member of an accepted object conforms to its field's type, the filled-in defaults included
+//@   ensures[members-conform] is(v, map[string]interface{}) && t.meta == nil && err == nil ==> (forall k string {asMap(v)[k]} :: has(t.fields.dict, k) && asMap(v)[k] != nil && is(inFld(t, k).Type, InCoercer) ==> conformsIn(asMap(v)[k], inFld(t, k).Type))
 //@   ensures[same-map] is(v, map[string]interface{}) && t.meta == nil && err == nil ==> res == v
 //@   ensures[only-declared] is(v, map[string]interface{}) && t.meta == nil && err == nil ==> (forall k string {has(asMap(v), k)} :: has(asMap(v), k) ==> inFld(t, k) != nil)
 //@   ensures[nil] v == nil ==> res == nil && err == nil
@@ -877,6 +880,7 @@ package ggql
 //@           invariant[done-default] t.meta == nil ==> (forall k string {seen(1, k)} :: seen(1, k) && old(asMap(v)[k]) == nil && inFld(t, k).Default != nil ==> asMap(v)[k] != nil && (!isColl(inFld(t, k).Default) ==> asMap(v)[k] == inFld(t, k).Default) && (isColl(inFld(t, k).Default) ==> asMap(v)[k] != inFld(t, k).Default) && (is(inFld(t, k).Default, map[string]interface{}) ==> is(asMap(v)[k], map[string]interface{})) && (is(inFld(t, k).Default, []interface{}) ==> is(asMap(v)[k], []interface{})))
 //@           invariant[done-non-null] t.meta == nil ==> (forall k string {seen(1, k)} :: seen(1, k) && is(inFld(t, k).Type, *NonNull) ==> asMap(v)[k] != nil)
 //@           invariant[done-coerced] t.meta == nil ==> (forall k string {seen(1, k)} :: seen(1, k) && old(asMap(v)[k]) != nil ==> conformsIn(asMap(v)[k], inFld(t, k).Type))
+//@           invariant[done-members] t.meta == nil ==> (forall k string {seen(1, k)} :: seen(1, k) && asMap(v)[k] != nil && is(inFld(t, k).Type, InCoercer) ==> conformsIn(asMap(v)[k], inFld(t, k).Type))
 //@           invariant[done-required] t.meta == nil ==> (forall k string {seen(1, k)} :: seen(1, k) ==> !(inFld(t, k).Default == nil && is(inFld(t, k).Type, *NonNull) && old(asMap(v)[k]) == nil))
 //@           invariant[todo] forall k string {seen(1, k)} :: !seen(1, k) ==> asMap(v)[k] == old(asMap(v)[k]) && (has(asMap(v), k) <==> old(has(asMap(v), k)))
 //@           invariant[fields-kept] forall k string {inFld(t, k)} :: inFld(t, k) == old(inFld(t, k))
@@ -1024,6 +1028,8 @@ package ggql
 //@   ensures[iface-list-len]{C01} is(obj, []interface{}) ==> is(result, []interface{}) && len(as(result, []interface{})) == len(as(obj, []interface{}))
 //@   ensures[elements-conform-listresolver]{C05} depth > 0 && isLeafT(t.Base) && is(obj, ListResolver) ==> is(result, []interface{}) && elemsOk(as(result, []interface{}), len(as(result, []interface{})), t.Base)
 //@   ensures[elements-conform-list]{C05} depth > 0 && isLeafT(t.Base) && !is(obj, ListResolver) && is(obj, []interface{}) ==> is(result, []interface{}) && elemsOk(as(result, []interface{}), len(as(result, []interface{})), t.Base)
+//@   -- from the statement: whatever Go value stands for the list, the members of a list of a leaf type are null or conform
+//@   ensures[elements-conform]{C05} depth > 0 && isLeafT(t.Base) && is(result, []interface{}) ==> elemsOk(as(result, []interface{}), len(as(result, []interface{})), t.Base)
 //@   ensures[listresolver-len]{C01} is(obj, ListResolver) && as(obj, ListResolver).Len() >= 0 ==> is(result, []interface{}) && len(as(result, []interface{})) == as(obj, ListResolver).Len()
 //@   assigns fresh, H_Field.ConType, H_Object.meta, H_FieldDef.goField, H_FieldDef.method, H_FieldDef.args, held, #res
 //@   ensures[locks-balanced]{C12,C20} held == old(held)
@@ -1041,6 +1047,55 @@ package ggql
 //@           invariant[idx]{C06} idxPaths(ea, rangeindex+1, len(hdr(ea)))
 //@           preserves[old-paths]{C06} oldPathsKept(hdr(ea), 0)
 //@           decreases len(list) - rangeindex
+//@   loop 2: invariant[bounds] 0 <= rangeindex+1 && rangeindex+1 <= len(list)
+//@           invariant[elements-conform]{C05} depth > 0 && isLeafT(t.Base) ==> elemsOk(rlist, len(rlist), t.Base)
+//@           invariant[len] len(rlist) == rangeindex+1
+//@           invariant[errs] errsFresh(ea)
+//@           invariant[idx]{C06} idxPaths(ea, rangeindex+1, len(hdr(ea)))
+//@           preserves[old-paths]{C06} oldPathsKept(hdr(ea), 0)
+//@           decreases len(list) - rangeindex
+//@   loop 3: invariant[bounds] 0 <= rangeindex+1 && rangeindex+1 <= len(list)
+//@           invariant[elements-conform]{C05} depth > 0 && isLeafT(t.Base) ==> elemsOk(rlist, len(rlist), t.Base)
+//@           invariant[len] len(rlist) == rangeindex+1
+//@           invariant[errs] errsFresh(ea)
+//@           invariant[idx]{C06} idxPaths(ea, rangeindex+1, len(hdr(ea)))
+//@           preserves[old-paths]{C06} oldPathsKept(hdr(ea), 0)
+//@           decreases len(list) - rangeindex
+//@   loop 4: invariant[bounds] 0 <= rangeindex+1 && rangeindex+1 <= len(list)
+//@           invariant[elements-conform]{C05} depth > 0 && isLeafT(t.Base) ==> elemsOk(rlist, len(rlist), t.Base)
+//@           invariant[len] len(rlist) == rangeindex+1
+//@           invariant[errs] errsFresh(ea)
+//@           invariant[idx]{C06} idxPaths(ea, rangeindex+1, len(hdr(ea)))
+//@           preserves[old-paths]{C06} oldPathsKept(hdr(ea), 0)
+//@           decreases len(list) - rangeindex
+//@   loop 5: invariant[bounds] 0 <= rangeindex+1 && rangeindex+1 <= len(list)
+//@           invariant[elements-conform]{C05} depth > 0 && isLeafT(t.Base) ==> elemsOk(rlist, len(rlist), t.Base)
+//@           invariant[len] len(rlist) == rangeindex+1
+//@           invariant[errs] errsFresh(ea)
+//@           invariant[idx]{C06} idxPaths(ea, rangeindex+1, len(hdr(ea)))
+//@           preserves[old-paths]{C06} oldPathsKept(hdr(ea), 0)
+//@           decreases len(list) - rangeindex
+//@   loop 6: invariant[bounds] 0 <= rangeindex+1 && rangeindex+1 <= len(list)
+//@           invariant[elements-conform]{C05} depth > 0 && isLeafT(t.Base) ==> elemsOk(rlist, len(rlist), t.Base)
+//@           invariant[len] len(rlist) == rangeindex+1
+//@           invariant[errs] errsFresh(ea)
+//@           invariant[idx]{C06} idxPaths(ea, rangeindex+1, len(hdr(ea)))
+//@           preserves[old-paths]{C06} oldPathsKept(hdr(ea), 0)
+//@           decreases len(list) - rangeindex
+//@   loop 7: invariant[bounds] 0 <= rangeindex+1 && rangeindex+1 <= len(list)
+//@           invariant[elements-conform]{C05} depth > 0 && isLeafT(t.Base) ==> elemsOk(rlist, len(rlist), t.Base)
+//@           invariant[len] len(rlist) == rangeindex+1
+//@           invariant[errs] errsFresh(ea)
+//@           invariant[idx]{C06} idxPaths(ea, rangeindex+1, len(hdr(ea)))
+//@           preserves[old-paths]{C06} oldPathsKept(hdr(ea), 0)
+//@           decreases len(list) - rangeindex
+//@   loop 8: invariant[bounds] 0 <= rangeindex+1 && rangeindex+1 <= len(list)
+//@           invariant[elements-conform]{C05} depth > 0 && isLeafT(t.Base) ==> elemsOk(rlist, len(rlist), t.Base)
+//@           invariant[len] len(rlist) == rangeindex+1
+//@           invariant[errs] errsFresh(ea)
+//@           invariant[idx]{C06} idxPaths(ea, rangeindex+1, len(hdr(ea)))
+//@           preserves[old-paths]{C06} oldPathsKept(hdr(ea), 0)
+//@           decreases len(list) - rangeindex
 //@   loop 9: invariant[bounds] 0 <= i && (i <= cnt || i == 0)
 //@           invariant[elements-conform]{C05} depth > 0 && isLeafT(t.Base) ==> elemsOk(rlist, len(rlist), t.Base)
 //@           invariant[len] len(rlist) == i
@@ -1049,6 +1104,7 @@ package ggql
 //@           preserves[old-paths]{C06} oldPathsKept(hdr(ea), 0)
 //@           decreases cnt - i
 //@   loop 10: invariant[bounds] 0 <= i && (i <= cnt || i == 0)
+//@           invariant[elements-conform]{C05} depth > 0 && isLeafT(t.Base) ==> elemsOk(rlist, len(rlist), t.Base)
 //@           invariant[len] len(rlist) == i
 //@           invariant[errs] errsFresh(ea)
 //@           invariant[idx]{C06} idxPaths(ea, i, len(hdr(ea)))
